@@ -348,3 +348,7 @@ PROPS["C19"]["level_note"] = ("Trusted: Lean kernel, standard axioms, the corres
     " validated by the model), so the theorems hold for every order the sort could produce. Wall-clock time per step is not modelled: each step is"
     " O(look-ahead) in the code; the property's bound is on the number of steps.")
 PROPS["C19"]["technique"] = "Lean 4 theorems over a hand-written model of the whole planner (induction over the main loop with a live-plan invariant) + model/implementation correspondence incl. step and live-plan counters"
+
+PROPS["C05"]["unproved"] = ["rs_decode_total (Reed-Solomon decoder: Levinson-Durbin / Chien / Bjorck-Pereyra index and divisor obligations; its debug assertions are algebraic identities of the recursion)"]
+PROPS["C05"]["explanation"] = PROPS["C05"]["explanation"].replace("The string decoder and the Reed-Solomon decoder are decided",
+    "decode_str_total - the same for the string decoder: the ECI span starts recorded while decoding are sorted and inside the output (eci_spans_in_range), so eci::convert never slices out of range, and the regenerated per-byte conversion tables cover every byte. The Reed-Solomon decoder is decided")
